@@ -2352,6 +2352,14 @@ class WBEMConnection:  # pylint: disable=too-many-instance-attributes
         output_params = NocaseDict()
 
         for p in tup_tree:
+            if p[1] is not None and not isinstance(p[1], str):
+                # Not a PARAMVALUE (name, type, value), e.g. a RETURNVALUE
+                # that is not the first child element
+                raise CIMXMLParseError(
+                    _format("Unexpected {0} child element of METHODRESPONSE "
+                            "(expecting optional RETURNVALUE followed by "
+                            "PARAMVALUE elements)", p[0]),
+                    conn_id=self.conn_id)
             if p[1] == 'reference':
                 output_params[p[0]] = p[2]
             else:
